@@ -688,20 +688,21 @@ func deathSig(log string) string {
 }
 
 type runner struct {
-	w        *world
-	g        *gen
-	o        *vh.Out
-	root     string
-	nchild   int
-	setup    []string // http lines that build the base collections
-	specs    map[string]*colSpec
-	replays  *bufio.Writer
-	statusCt map[string]int
-	mutCt    map[string]int
-	deaths   int
-	judged   int
-	unjudged int
-	distinct map[string]struct{}
+	w          *world
+	g          *gen
+	o          *vh.Out
+	root       string
+	nchild     int
+	setup      []string // http lines that build the base collections
+	specs      map[string]*colSpec
+	replays    *bufio.Writer
+	statusCt   map[string]int
+	mutCt      map[string]int
+	deaths     int
+	baseFailed map[string]bool
+	judged     int
+	unjudged   int
+	distinct   map[string]struct{}
 }
 
 func (rn *runner) restart() {
@@ -719,6 +720,8 @@ func (rn *runner) restart() {
 	rn.w.hist = map[string][]string{}
 	rn.w.taint = map[string]bool{}
 	rn.w.broken = map[string]string{}
+	rn.w.cols = map[string]map[string]*colInfo{}
+	rn.w.digest = ""
 	rn.setup = nil
 	for i := range baseCols {
 		rn.ensureBase(&baseCols[i])
@@ -733,8 +736,10 @@ func (rn *runner) ensureBase(cs *colSpec) {
 		api = "/v1"
 	}
 	req := request{cs.user, cs.plan, "POST", api + "/collections", "application/json", cs.createBody().JSON()}
-	resp := rn.w.c.do(req)
-	if resp.status == 403 {
+	if rn.baseFailed[key] {
+		return
+	}
+	if len(rn.w.cols[cs.user]) >= planNums[cs.plan][0] {
 		// the user's quota is used up by fuzz-created collections: make room
 		for id := range rn.w.cols[cs.user] {
 			if !isBase(id) {
@@ -744,11 +749,14 @@ func (rn *runner) ensureBase(cs *colSpec) {
 				delete(rn.specs, cs.user+"/"+id)
 			}
 		}
-		resp = rn.w.c.do(req)
+		rn.refresh()
 	}
-	if resp.status != 200 {
-		fmt.Fprintf(os.Stderr, "setup: creating %s answered %d %s\n", key, resp.status, resp.body)
-		os.Exit(3)
+	// through the oracle and the model like any other request: a refused documented schema shows
+	// up as a disagreement with a replay instead of stopping the run
+	if st := rn.modelledReq(api[1:]+"Create", api[1:], cs.user, cs.plan, "POST", "", "", cs.createBody(), false, "setup", false); st != 200 {
+		fmt.Fprintf(os.Stderr, "setup: creating %s answered %d\n", key, st)
+		rn.baseFailed[key] = true
+		return
 	}
 	rn.w.hist[key] = []string{req.line()}
 	rn.w.known[key] = map[string]bool{}
@@ -775,10 +783,11 @@ func (rn *runner) ensureBase(cs *colSpec) {
 		// the second vector index must stay consistent: insert through v2 only
 		ireq.path = "/v2/collections/" + cs.id + "/points"
 	}
-	resp = rn.w.c.do(ireq)
+	resp := rn.w.c.do(ireq)
 	if resp.status != 200 {
 		fmt.Fprintf(os.Stderr, "setup: inserting into %s answered %d %s\n", key, resp.status, resp.body)
-		os.Exit(3)
+		rn.fail(fmt.Sprintf("setup-insert-refused:%d", resp.status), "a batch of valid points was not accepted: "+string(resp.body), []string{req.line(), ireq.line()})
+		return
 	}
 	rn.w.hist[key] = append(rn.w.hist[key], ireq.line())
 	for _, p := range pts.A {
@@ -788,6 +797,7 @@ func (rn *runner) ensureBase(cs *colSpec) {
 		}
 		rn.w.known[key][idn.S] = true
 	}
+	rn.refresh()
 }
 
 // refresh re-reads the whole state and makes it the new baseline
@@ -818,18 +828,19 @@ func run(seed uint64, n int, dir string, deepmp int) {
 	// vh.NewRng(k) and vh.NewRng(k+1) are the same splitmix stream one step apart, and a generator with
 	// data dependent consumption re-synchronises on it within a few calls: hash the seed first
 	rn := &runner{g: &gen{r: vh.NewRng(vh.NewRng(seed ^ 0xC18C18C18).U64())}, o: o, root: root, specs: map[string]*colSpec{}, replays: bufio.NewWriter(rf),
-		statusCt: map[string]int{}, mutCt: map[string]int{}, distinct: map[string]struct{}{}}
+		statusCt: map[string]int{}, mutCt: map[string]int{}, distinct: map[string]struct{}{}, baseFailed: map[string]bool{}}
 	rn.w = &world{fails: &fails}
 	rn.w.users = []struct{ user, plan string }{{"alice", "BASIC"}, {"bob", "TINY"}, {"carol", "BIG"}, {"dave", "BASIC"}}
 	rn.restart()
 	defer func() { rn.w.c.kill() }()
 
-	rn.pureOps()
-	rn.boundarySweep()
 	t0 := time.Now()
+	rn.pagingProbe()
+	rn.boundarySweep()
 	for i := 0; i < n; i++ {
 		rn.iteration(i)
 	}
+	rn.pureOps() // last: status disagreements come first in the diff
 	if deepmp > 0 {
 		rn.deepMsgpack(deepmp)
 	}
@@ -1041,7 +1052,7 @@ func (rn *runner) iteration(i int) {
 	// make sure the base collections exist (a fuzzed DELETE may have removed one)
 	for k := range baseCols {
 		cs := &baseCols[k]
-		if _, ok := rn.w.cols[cs.user][cs.id]; !ok {
+		if _, ok := rn.w.cols[cs.user][cs.id]; !ok && !rn.baseFailed[cs.user+"/"+cs.id] {
 			rn.ensureBase(cs)
 			rn.refresh()
 		}
